@@ -35,6 +35,11 @@ class Ctx(object):
         self.max_terms = max_terms
         import time
         self.deadline = (time.time() + seconds) if seconds else None
+        self.defs = {}       # canonical body text -> name of its definition atom
+        self._fp = {}
+        self.alias = {}      # definition atom -> +-(older definition atom) proved equal to it
+        self.alias_forms = None   # optional: candidate images of an older definition under the renaming being applied (default +-)
+        self.positive = set()   # atoms known to be > 0 (sqrt may pull their even powers out)
 
     # -- atoms ---------------------------------------------------------------
     def name_of(self, struct):
@@ -51,6 +56,8 @@ class Ctx(object):
             return '%s{%s}' % (s[1].upper(), ';'.join(str(a) for a in s[2]))
         if s[0] == 'ind':
             return 'IND{%s}' % s[1]
+        if s[0] == 'def':
+            return s[1]
         raise ValueError(s)
 
     def var(self, name):
@@ -75,7 +82,61 @@ class Ctx(object):
             return -1, -p
         return 1, p
 
+    def expand_all(self, p):
+        while any(self.is_def(a) for a in p.atoms()):
+            p = self.expand(p)
+        return p
+
+    def combine_pows(self, p):
+        """b**e1 * b**e2 -> b**(e1+e2) (b**n expanded when the total exponent is an integer)"""
+        if not any(a.startswith(('POW{', 'INV{POW{')) for a in p.atoms()):
+            return p
+        out = Poly()
+        touched = False
+        for mono, c in p.t.items():
+            groups = {}
+            rest = []
+            for a, e in mono:
+                st = self.atoms.get(a)
+                if st and st[0] == 'fn' and st[1] == 'pow' and len(st[2]) == 2:
+                    groups.setdefault(str(st[2][0]), [st[2][0], Poly()])[1] += st[2][1] * Poly.const(e)
+                elif st and st[0] == 'inv' and len(st[1].t) == 1 and list(st[1].t.values())[0] == 1 and len(list(st[1].t)[0]) == 1 and \
+                        self.atoms.get(list(st[1].t)[0][0][0], ('',))[0:2] == ('fn', 'pow'):
+                    (pa, pe), = list(st[1].t)[0]
+                    pst = self.atoms[pa]
+                    groups.setdefault(str(pst[2][0]), [pst[2][0], Poly()])[1] -= pst[2][1] * Poly.const(e * pe)
+                else:
+                    rest.append((a, e))
+            npow = sum(1 for a, e in mono if a.startswith(('POW{', 'INV{POW{')))
+            term = Poly({tuple(sorted(rest)): c})
+            changed = False
+            exps = dict((key, self.simplify_basic(self.expand_all(ex))) for key, (base, ex) in groups.items())
+            if npow == len(groups) and not any(x.is_const() and x.const_value().denominator == 1 for x in exps.values()):
+                out = out + Poly({mono: c})
+                continue
+            for key, (base, ex) in groups.items():
+                exx = exps[key]
+                if exx.is_const() and exx.const_value().denominator == 1:
+                    n = int(exx.const_value())
+                    f = base if n >= 0 else self.inv(base)
+                    for _ in range(abs(n)):
+                        term = term * f
+                    changed = True
+                else:
+                    term = term * self.fn('pow', [base, ex if exx.is_const() is False else exx])
+            if changed or npow > len(groups):
+                touched = True
+            out = out + term
+        return out if touched else p
+
     def simplify(self, p):
+        r = self.simplify_basic(p)
+        r2 = self.combine_pows(r)
+        if r2 is not r:
+            return self.simplify_basic(r2)
+        return r
+
+    def simplify_basic(self, p):
         """ind^k -> ind; x^i * INV{x}^j cancellation for single-atom inverses; SQRT{x}^2 -> x"""
         out = {}
         extra = Poly()
@@ -110,8 +171,36 @@ class Ctx(object):
                 out[key] = out.get(key, 0) + c
         r = Poly(out) + extra
         if changed and not extra.is_zero():
-            return self.simplify(r)
+            return self.simplify_basic(r)
         return self.check(r)
+
+    # -- positive content: factors known to be > 0 move through abs / max / sqrt / [.>0] / reciprocals ----
+    def pos_content(self, polys, even=False):
+        if not self.positive:
+            return {}
+        cont = None
+        for p in polys:
+            for mono in p.t:
+                d = dict(mono)
+                cur = dict((a, d.get(a, 0) - d.get('INV{%s}' % a, 0)) for a in self.positive)
+                cont = cur if cont is None else dict((a, min(cont[a], cur[a])) for a in cont)
+        if cont is None:
+            return {}
+        if even:
+            cont = dict((a, e - (e % 2)) for a, e in cont.items())
+        return dict((a, e) for a, e in cont.items() if e)
+
+    def pos_mono(self, cont, scale=1):
+        r = Poly.const(1)
+        for a, e in sorted(cont.items()):
+            e = e * scale
+            f = Poly.var(a) if e > 0 else self._inv_atom(Poly.var(a))
+            for _ in range(abs(int(e))):
+                r = r * f
+        return r
+
+    def strip_content(self, p, cont):
+        return self.simplify(p * self.pos_mono(cont, -1)) if cont else p
 
     def mul(self, a, b):
         if len(a.t) * len(b.t) > self.max_terms * 4:
@@ -132,6 +221,9 @@ class Ctx(object):
                 else:
                     r = r * self._inv_atom(Poly.var(a)) ** e
             return self.simplify(r)
+        cont = self.pos_content([p])
+        if cont:
+            return self.simplify(self.inv(self.strip_content(p, cont)) * self.pos_mono(cont, -1))
         s, pp = self.orient(p)
         # pull out a constant factor so that k*p and p share one atom
         lead = sorted(pp.t.items(), key=lambda kv: kv[0])[0][1]
@@ -146,6 +238,9 @@ class Ctx(object):
             p = args[0]
             if p.is_const():
                 return Poly.const(abs(p.const_value()))
+            cont = self.pos_content([p])
+            if cont:
+                return self.simplify(self.fn('abs', [self.strip_content(p, cont)]) * self.pos_mono(cont))
             s, pp = self.orient(p)
             lead = sorted(pp.t.items(), key=lambda kv: kv[0])[0][1]
             pn = pp * Poly.const(1 / lead)
@@ -158,10 +253,18 @@ class Ctx(object):
                 r = Fraction(math.isqrt(v.numerator), 1) / Fraction(math.isqrt(v.denominator), 1) if v.denominator else None
                 if r is not None and r * r == v:
                     return Poly.const(r)
+            cont = self.pos_content([p], even=True)
+            if cont:
+                return self.simplify(self.fn('sqrt', [self.strip_content(p, cont)]) * self.pos_mono(dict((a, e // 2) for a, e in cont.items())))
             return Poly.var(self.name_of(('fn', 'sqrt', (p,))))
         if f in ('max', 'fmax'):
             if len(args) == 2 and args[0] == args[1]:
                 return args[0]
+            if all(a.is_const() for a in args):
+                return Poly.const(max(a.const_value() for a in args))
+            cont = self.pos_content([a for a in args if not a.is_zero()])
+            if cont:
+                return self.simplify(self.fn('max', [self.strip_content(a, cont) for a in args]) * self.pos_mono(cont))
             return Poly.var(self.name_of(('fn', 'max', tuple(sorted(args, key=str)))))
         if f in ('min', 'fmin'):
             neg = [-a for a in args]
@@ -171,17 +274,211 @@ class Ctx(object):
             for _ in range(int(args[1].const_value())):
                 r = self.mul(r, args[0])
             return r
+        if f == 'pow' and len(args) == 2 and args[0] == Poly.const(1):
+            return Poly.const(1)
+        if f == 'pow' and len(args) == 2 and not args[1].is_const():
+            # x**(-e) = (1/x)**e = 1/(x**e): one atom for the four spellings
+            base, ex = args
+            flip = False
+            sgn, exo = self.orient(ex)
+            if sgn < 0:
+                ex, flip = exo, not flip
+            if len(base.t) == 1:
+                rec = self.inv(base)
+                if len(rec.t) == 1 and str(rec) < str(base):
+                    base, flip = rec, not flip
+            atom = Poly.var(self.name_of(('fn', 'pow', (base, ex))))
+            return self.inv(atom) if flip else atom
         return Poly.var(self.name_of(('fn', f, tuple(args))))
 
     def ind(self, p):
         """[p > 0]"""
         if p.is_const():
             return Poly.const(1 if p.const_value() > 0 else 0)
+        cont = self.pos_content([p])
+        if cont:
+            return self.ind(self.strip_content(p, cont))
         s, pp = self.orient(p)
         lead = sorted(pp.t.items(), key=lambda kv: kv[0])[0][1]
         pn = pp * Poly.const(1 / lead)
         a = Poly.var(self.name_of(('ind', pn)))
         return a if s > 0 else Poly.const(1) - a
+
+    # -- definition atoms (local value numbering) ---------------------------
+    def define(self, p):
+        """name a multi-term value: D_k stands for its canonically oriented, monic body; equal bodies (up to sign and a
+        constant factor) share one atom, so a renaming that maps one temporary onto +-another is found by hash-consing"""
+        if len(p.t) <= 1:
+            return p
+        s, pp = self.orient(p)
+        lead = sorted(pp.t.items(), key=lambda kv: kv[0])[0][1]
+        pn = pp * Poly.const(1 / lead)
+        k = str(pn)
+        nm = self.defs.get(k)
+        if nm is None:
+            nm = 'D%03d' % len(self.defs)
+            self.defs[k] = nm
+            self.atoms[nm] = ('def', nm, pn)
+        return Poly.var(nm) * Poly.const(Fraction(s) * lead)
+
+    # -- numeric fingerprints: candidate selection only, never a verdict ------
+    def fp_atom(self, a, salt):
+        key = (a, salt)
+        if key in self._fp:
+            return self._fp[key]
+        import hashlib, cmath
+        st = self.atoms.get(a, ('var', a))
+        try:
+            if st[0] == 'var':
+                h = int(hashlib.sha1(('%s/%s' % (a, salt)).encode()).hexdigest()[:12], 16)
+                v = 0.6 + 1.3 * (h % 1000003) / 1000003.0
+            elif st[0] == 'inv':
+                v = 1.0 / self.fp(st[1], salt)
+            elif st[0] == 'def':
+                v = self.fp(st[2], salt)
+            elif st[0] == 'ind':
+                v = 1.0 if complex(self.fp(st[1], salt)).real > 0 else 0.0
+            else:
+                args = [self.fp(x, salt) for x in st[2]]
+                if st[1] == 'abs':
+                    v = abs(args[0])
+                elif st[1] == 'sqrt':
+                    v = cmath.sqrt(args[0])
+                elif st[1] == 'max':
+                    v = max(args, key=lambda z: complex(z).real)
+                elif st[1] == 'pow':
+                    v = complex(args[0]) ** complex(args[1])
+                elif st[1] == 'eq':
+                    v = 0.0
+                else:
+                    h = int(hashlib.sha1(('%s/%s/%s' % (st[1], salt, ['%.9e' % x for x in args])).encode()).hexdigest()[:12], 16)
+                    v = 0.6 + 1.3 * (h % 1000003) / 1000003.0
+        except (ValueError, ZeroDivisionError, OverflowError, TypeError):
+            v = None
+        self._fp[key] = v
+        return v
+
+    def fp(self, p, salt=0):
+        tot = 0.0
+        for mono, c in p.t.items():
+            term = complex(float(c))
+            for a, e in mono:
+                v = self.fp_atom(a, salt)
+                if v is None:
+                    raise ValueError('no fingerprint')
+                term *= v ** e
+            tot += term
+        return tot
+
+    def maybe_equal(self, a, b):
+        """False only when two fingerprints tell a and b apart"""
+        try:
+            for salt in (0, 1):
+                x, y = self.fp(a, salt), self.fp(b, salt)
+                if abs(x - y) > 1e-7 * (abs(x) + abs(y) + 1e-30):
+                    return False
+        except (ValueError, ZeroDivisionError, OverflowError, TypeError):
+            return True
+        return True
+
+    def is_def(self, a):
+        return self.atoms.get(a, ('',))[0] == 'def'
+
+    def expand(self, p, which=None):
+        """replace definition atoms (all, or the given ones) by their bodies, one level"""
+        m = dict((a, self.atoms[a][2]) for a in p.atoms() if self.is_def(a) and (which is None or a in which))
+        if not m:
+            return p
+        out = Poly()
+        for mono, c in p.t.items():
+            term = Poly.const(c)
+            for a, e in mono:
+                f = m[a] if a in m else Poly.var(a)
+                for _ in range(e):
+                    term = self.mul(term, f)
+            out = self.check(out + term)
+        return self.simplify(out)
+
+    def clear_denominators(self, e):
+        """e * (product of the bodies of its reciprocal atoms): zero iff e is zero wherever e is defined"""
+        while True:
+            invs = [a for a in e.atoms() if a.startswith('INV{')]
+            if not invs:
+                return e
+            a = sorted(invs, key=lambda x: (len(x), x))[-1]
+            body = self.atoms[a][1]
+            emax = max(dict(m).get(a, 0) for m in e.t)
+            pw = {0: Poly.const(1)}
+            for k in range(1, emax + 1):
+                pw[k] = self.mul(pw[k - 1], body)
+            out = Poly()
+            for m, c in e.t.items():
+                d = dict(m)
+                k = d.pop(a, 0)
+                out = self.check(out + Poly({tuple(sorted(d.items())): c}) * pw[emax - k])
+            e = self.simplify(out)
+
+    def prove_zero(self, e):
+        """(True, 0) when e vanishes identically: simplification, then clearing denominators, then unfolding definition atoms
+        latest first.  (False, residual) otherwise - the residual is over atoms that were treated as independent"""
+        e = self.simplify(e)
+        while True:
+            if e.is_zero():
+                return True, e
+            e2 = self.clear_denominators(e)
+            if e2.is_zero():
+                return True, e2
+            ds = [a for a in e2.atoms() if self.is_def(a)]
+            if not ds:
+                return False, e2
+            e = self.expand(e2, set([max(ds)]))
+
+    # -- differentiation ------------------------------------------------------
+    def deriv(self, p, x, memo=None):
+        """d p / d x for an input or state symbol x; indicators are piecewise constant, abs/max are not differentiated"""
+        memo = {} if memo is None else memo
+        out = Poly()
+        for mono, c in p.t.items():
+            for i, (a, e) in enumerate(mono):
+                da = self._deriv_atom(a, x, memo)
+                if da.is_zero():
+                    continue
+                rest = Poly({tuple(sorted([(b, f) for j, (b, f) in enumerate(mono) if j != i] + ([(a, e - 1)] if e > 1 else []))): c * e})
+                out = self.check(out + self.mul(rest, da))
+        return self.simplify(out)
+
+    def _deriv_atom(self, a, x, memo):
+        if a in memo:
+            return memo[a]
+        st = self.atoms.get(a, ('var', a))
+        if st[0] == 'var':
+            r = Poly.const(1 if st[1] == x else 0)
+        elif st[0] == 'inv':
+            d = self.deriv(st[1], x, memo)
+            r = Poly() if d.is_zero() else -self.mul(self.mul(Poly.var(a), Poly.var(a)), d)
+        elif st[0] == 'def':
+            r = self.deriv(st[2], x, memo)
+        elif st[0] == 'ind':
+            r = Poly()
+        elif st[0] == 'fn' and st[1] == 'sqrt':
+            d = self.deriv(st[2][0], x, memo)
+            r = Poly() if d.is_zero() else self.mul(d, self.inv(Poly.var(a) * Poly.const(2)))
+        elif st[0] == 'fn' and st[1] == 'pow':
+            base, ex = st[2]
+            if not self.deriv(ex, x, memo).is_zero():
+                raise Unsupported('derivative of a power with a varying exponent')
+            d = self.deriv(base, x, memo)
+            r = Poly() if d.is_zero() else self.mul(self.mul(self.mul(ex, Poly.var(a)), self.inv(base)), d)
+        elif st[0] == 'fn':
+            ds = [self.deriv(q, x, memo) for q in st[2]]
+            if all(d.is_zero() for d in ds):
+                r = Poly()
+            else:
+                raise Unsupported('derivative of %s' % st[1])
+        else:
+            raise Unsupported(str(st))
+        memo[a] = r
+        return r
 
     def ite(self, c, a, b):
         return self.simplify(b + self.mul(c, a - b))
@@ -211,6 +508,28 @@ class Ctx(object):
             r = self.fn(st[1], [self.rename(x, sigma, memo) for x in st[2]])
         elif st[0] == 'ind':
             r = self.ind(self.rename(st[1], sigma, memo))
+        elif st[0] == 'def':
+            n0 = len(self.defs)
+            body = self.rename(st[2], sigma, memo)
+            r = self.define(body)
+            if len(r.t) == 1 and list(r.t)[0] and list(r.t)[0][0][0] in self.alias:   # a proved identity between two values
+                (mono, coef), = r.t.items()
+                r = self.alias[mono[0][0]] * Poly.const(coef)
+            elif len(self.defs) > n0 and len(r.t) == 1:
+                # a new value: is it +-(an existing one)?  proved at this level, with the other temporaries opaque
+                (mono, coef), = r.t.items()
+                new = mono[0][0]
+                for old in sorted(k for k in self.atoms if self.is_def(k) and k < new):
+                    ob = Poly.var(old)
+                    hit = None
+                    for cand in (self.alias_forms(ob) if self.alias_forms else (ob, -ob)):
+                        if self.maybe_equal(Poly.var(new), cand) and self.prove_zero(Poly.var(new) - cand)[0]:
+                            hit = cand
+                            break
+                    if hit is not None:
+                        self.alias[new] = hit
+                        r = hit * Poly.const(coef)
+                        break
         else:
             raise Unsupported(str(st))
         memo[a] = r
@@ -220,13 +539,18 @@ class Ctx(object):
 class Evaluator(object):
     """Abstract evaluation of a function body into Poly values."""
 
-    def __init__(self, ctx, fn, inputs=None, helpers=None, unroll=8):
+    def __init__(self, ctx, fn, inputs=None, helpers=None, unroll=8, define_terms=None):
         self.ctx = ctx
+        self.define_terms = define_terms   # values with more terms than this become definition atoms
+        self.chooser = None                # arm enumeration: decides the spine ifs instead of if-converting them
+        self.spine = set()
+        self.decisions = []
         self.fn = fn
         self.helpers = helpers or {}
         self.unroll = unroll
         self.env = {}
         self.returns = []      # (condition poly, value poly or tuple)
+        self.breaks = []       # (condition poly, environment) of every break executed in the block being evaluated
         self.live = Poly.const(1)
         self.inputs = inputs
 
@@ -325,6 +649,12 @@ class Evaluator(object):
         if isinstance(t, ast.Compare) and len(t.ops) == 1:
             a, b = self.ev(t.left), self.ev(t.comparators[0])
             op = t.ops[0]
+            d = c.simplify(a - b)
+            if d.is_const():
+                v = d.const_value()
+                r = {ast.Gt: v > 0, ast.GtE: v >= 0, ast.Lt: v < 0, ast.LtE: v <= 0, ast.Eq: v == 0, ast.NotEq: v != 0}.get(type(op))
+                if r is not None:
+                    return Poly.const(1 if r else 0)
             if isinstance(op, (ast.Gt, ast.GtE)):
                 return c.ind(a - b)
             if isinstance(op, (ast.Lt, ast.LtE)):
@@ -361,6 +691,8 @@ class Evaluator(object):
         return self.ctx.simplify(tot)
 
     def assign(self, target, val):
+        if self.define_terms is not None and isinstance(val, Poly) and len(val.t) > self.define_terms:
+            val = self.ctx.define(val)
         if isinstance(target, ast.Name):
             self.env[target.id] = val
         elif isinstance(target, ast.Subscript):
@@ -409,6 +741,11 @@ class Evaluator(object):
             else:
                 raise Unsupported('augmented operator')
             return self.assign(s.target, r)
+        if isinstance(s, ast.If) and self.chooser is not None and id(s) in self.spine:
+            cnd = self.cond(s.test)
+            taken = self.chooser(len(self.decisions))
+            self.decisions.append((s, cnd, taken))
+            return self.block(s.body if taken else s.orelse)
         if isinstance(s, ast.If):
             cnd = self.cond(s.test)
             if cnd.is_const():
@@ -451,6 +788,8 @@ class Evaluator(object):
                 if all(b.is_const() and b.const_value().denominator == 1 for b in bounds):
                     vals = list(range(*[int(b.const_value()) for b in bounds]))
                     if len(vals) <= self.unroll:
+                        if any(isinstance(x, (ast.Break, ast.Continue)) for x in ast.walk(s)):
+                            raise Unsupported('break/continue in an unrolled loop')
                         for v in vals:
                             self.env[s.target.id] = Poly.const(v)
                             self.block(s.body)
@@ -467,6 +806,9 @@ class Evaluator(object):
             return True
         if isinstance(s, ast.Pass):
             return
+        if isinstance(s, ast.Break):
+            self.breaks.append((self.live, dict(self.env)))
+            return True
         if isinstance(s, ast.While):
             raise Unsupported('while loop')
         raise Unsupported('statement %s' % type(s).__name__)
@@ -486,3 +828,42 @@ class Evaluator(object):
     def default(self, key):
         """value of a name/element that one branch did not assign: its value on entry"""
         return self.input_var(key)
+
+
+def spine_ifs(fn):
+    """the case analysis of a function: if statements directly in its body, and the elif chains hanging off them"""
+    out = set()
+
+    def chain(n):
+        out.add(id(n))
+        if len(n.orelse) == 1 and isinstance(n.orelse[0], ast.If):
+            chain(n.orelse[0])
+    for st in fn.body:
+        if isinstance(st, ast.If):
+            chain(st)
+    return out
+
+
+def arms(make_evaluator, fn):
+    """one evaluator per path through the case analysis (spine ifs decided, everything nested if-converted)"""
+    spine = spine_ifs(fn)
+    todo = [[]]
+    out = []
+    while todo:
+        prefix = todo.pop()
+        ev = make_evaluator()
+        ev.spine = spine
+        choices = []
+
+        def chooser(i, prefix=prefix, choices=choices):
+            c = prefix[i] if i < len(prefix) else True
+            choices.append(c)
+            return c
+        ev.chooser = chooser
+        ev.run()
+        for i in range(len(prefix), len(choices)):
+            todo.append(choices[:i] + [False])
+        ev.path = tuple(choices)
+        out.append(ev)
+    out.sort(key=lambda e: [not c for c in e.path])
+    return out
